@@ -255,6 +255,12 @@ def hll_value(kind, i):
         return f'v{i}'
     if kind == 'unicode':
         return f'ü{i}é中'
+    if kind == 'dec8':
+        return f'{i:08d}'                 # 8-digit decimal ids: hex-parsable, highly structured
+    if kind == 'hexcounter':
+        return '%08x' % i                  # zero-padded hex counter (e.g. hex-encoded IPv4 range)
+    if kind == 'long':
+        return 'https://example.org/landing?utm=' + 'x' * 260 + f'&id={i}'
     if kind == 'hex8':
         # 8 hex digits as produced by the pipeline's 32-bit value hash; multiplication by an odd constant
         # is a bijection on 32-bit integers, so the values are distinct by construction
